@@ -59,7 +59,7 @@ class Ctx:
 
     def nontrivial(self, obj):
         if not isinstance(obj, (bytes, str)):
-            obj = json.dumps(obj, sort_keys=True)
+            obj = json.dumps(obj, sort_keys=True, default=repr)
         if isinstance(obj, str):
             obj = obj.encode("utf-8", "surrogateescape")
         self.distinct.add(hashlib.blake2b(obj, digest_size=10).digest())
